@@ -80,14 +80,15 @@ theorem g_union_empty_union_counterexample :
       c.unionWith (.union []) = .ok r ∧ r.den "a" = false ∧ c.den "a" = true :=
   ⟨_, _, rfl, rfl, rfl, by decide, by decide⟩
 
-/-- `extra` variant: `invert` does not preserve `wfX` (an `ExtraMultiConstraint` mentioning a value twice),
-and `union` is then INEXACT.  Real code: `parse_extra_constraint("a || a").invert()` is
-`<ExtraMultiConstraint !=a, !=a>`; its union with `parse_extra_constraint("a")` is `<UnionConstraint a>`,
-false for the empty set of extras, where the first operand is true. -/
-theorem x_union_after_invert_counterexample :
+/-- `extra` variant: `invert` does not preserve `wfX` (it can build an `ExtraMultiConstraint` mentioning a
+value twice).  `ExtraMultiConstraint.union` used to take its two-member shortcut there and return
+`<UnionConstraint a>` for `parse_extra_constraint("a || a").invert().union(parse_extra_constraint("a"))`
+(false for the empty set of extras); since poetry-core ea09f91 the shortcut counts distinct values and the
+result is exact. -/
+theorem x_union_after_invert_regression :
     ∃ a i c r, parseExtraConstraint "a || a" = .ok a ∧ a.wfX = true ∧ a.invert = .ok i ∧ i.wfX = false ∧
       parseExtraConstraint "a" = .ok c ∧ i.unionWith c = .ok r ∧
-      r.denX (fun _ => false) = false ∧ i.denX (fun _ => false) = true :=
+      r.denX (fun _ => false) = true ∧ i.denX (fun _ => false) = true :=
   ⟨_, _, _, _, rfl, by decide, rfl, by decide, rfl, rfl, by decide, by decide⟩
 
 end Poetry.C16
